@@ -1,4 +1,4 @@
 INIT Init
 NEXT Next
-INVARIANTS RoundTrip TruncRejected DanglingRejected ContentsCutRejected Emit
+INVARIANTS RoundTrip TruncRejected DanglingRejected ContentsCutRejected ContentsCutRejectedX Emit
 CHECK_DEADLOCK FALSE
